@@ -407,11 +407,19 @@ PROPS["C01"] = {
              "field left unmodified and a dictionary reference; distinct by hash of the stream"),
     "trusted_base": CODEC_TB,
     "assumptions": ["memory aliasing (values of earlier records staying unchanged) is checked by the harness only"],
-    "level_text": ("Proved for all histories: roundtrip_struct_of_primitives (differential mask encoding over any lawful primitive "
-                   "codec, n <= 64 fields) with instances roundtrip_int_struct, roundtrip_float_struct; setter_marks_changes. "
-                   "Optional fields, oneofs, arrays, multimaps, dictionary structs and frames are NOT covered by a theorem: "
-                   "there the round trip is decided on the real code by the harness with the Lean specification decoder as an "
-                   "independent oracle (10 known findings of the 'marks relative to current instead of last encoded value' family)."),
+    "level_text": ("Proved for all inputs (Props/C01Enc.lean, over the schema-generic encoder model Stef/SpecEnc.lean and the "
+                   "specification decoder Stef/Spec.lean): encode_decode_node(_framed) - for every schema, node kind (primitive, "
+                   "struct with mask and optional fields, dictionary struct, oneof, array, multimap in its three forms, recursion), "
+                   "previous value, codec/dictionary state, value and mark tree, the decoder applied to the encoder's column events "
+                   "returns the encoder's effective value and reaches the encoder's state; roundtrip_node (sound marks => the value "
+                   "written); encode_decode_records / roundtrip_records (record sequences), frame(s)_cols_roundtrip (any restart "
+                   "flags), size_table_roundtrip, stream_roundtrip (uncompressed streams: decodeStream (encodeStream ins) returns the "
+                   "effective values, no error, no dictionary violation). Props/C01.lean keeps roundtrip_struct_of_primitives over "
+                   "the register-level codecs and setter_marks_changes. Tie: `se reencode` regenerates every frame of every harness "
+                   "stream byte-exactly with the model encoder from the marks the model decoder recorded, and `sd decode` decodes "
+                   "it. NOT a theorem: that the generated record API (setters, CopyFrom, EnsureLen, Append, frozen sharing) always "
+                   "leaves sound marks - decided on the real code by the random histories with the Lean decoder as independent "
+                   "oracle (14 defects of that family found and repaired in /repo, none open); encoder totality; zstd."),
 }
 
 PROPS["C02"] = {
@@ -427,7 +435,9 @@ PROPS["C02"] = {
     "level_text": ("Theorems: fixed_header_layout, frame_layout (model framing = specification parser), dict_ref_always, "
                    "dict_admission, plus the value-format theorems of C20. The statement 'an independent decoder decodes the bytes "
                    "to the records written' is decided per generated history by running Stef.Spec.decodeStream (core Lean, shares "
-                   "no code with the library) on the bytes the real writer produced."),
+                   "no code with the library) on the bytes the real writer produced; `se reencode` additionally regenerates each frame "
+                   "byte-exactly with the model encoder (Stef/SpecEnc.lean), whose round trip against that decoder is proved "
+                   "(Props/C01Enc.lean: stream_roundtrip)."),
 }
 
 PROPS["C05"] = {
@@ -506,8 +516,8 @@ PROPS["C10"] = {
     "trusted_base": HGEN_TB,
     "assumptions": ["'the generated package compiles' and 'generated code = model instantiated at the schema' are observed "
                     "per drawn schema, not proved (template text is not translated)",
-                    "the mutator avoids the known C01-family defects of the generated record API (double reveal, -0.0, "
-                    "setter-clone-unlinked, stale parent links after reallocation); they are triggered by scripted cases"],
+                    "the mutator no longer avoids any call sequence (the C01-family defects of the generated record API are "
+                    "repaired in /repo); the former triggers stay as scripted regression cases"],
     "level_text": ("PARTIAL. Lean: the C01 round-trip theorem restated with the field count and the primitive codec as parameters "
                    "(roundtrip_generic, _int, _float); the specification decoder is generic in the schema. The template text of "
                    "stefc is NOT translated: that generated code is the model instantiated at a schema, and that it compiles, is "
